@@ -91,7 +91,12 @@ def u_assign_center(I):
     def query_attr(I_, o, name):
         if name == 'GetQueryMatches':
             k = o.fields['k']
-            return Builtin('GetQueryMatches', lambda I2, a, kw: Obj(BuiltinClass('MatchList'), {'k': k}, 'fresh'))
+            def gqm(I2, a, kw):
+                # the contract of the matcher (C08) is about GetQueryMatches(mol): a call with further arguments is outside it (undecided, not assumed)
+                if len(a) != 1 or kw:
+                    raise Unsupported('GetQueryMatches called with arguments the matcher contract does not cover: %r %r' % (a[1:], sorted(kw)))
+                return Obj(BuiltinClass('MatchList'), {'k': k}, 'fresh')
+            return Builtin('GetQueryMatches', gqm)
         if name == '__str__':
             return Builtin('__str__', lambda I2, a, kw: FmtStr(['<query>']))
         return NotImplementedVal
@@ -286,7 +291,7 @@ def u_assign_descriptor(I):
         ctx.assume(m[0] != m[1])
     matches = tuple(tuple(m) for m in atoms)
     q = Obj(BuiltinClass('DescQuery'), {}, 'param')
-    W_.abstract['DescQuery'] = {'attr': lambda I_, o, n: Builtin('GetQueryMatches', lambda I2, a, k: matches) if n == 'GetQueryMatches' else NotImplementedVal}
+    W_.abstract['DescQuery'] = {'attr': lambda I_, o, n: Builtin('GetQueryMatches', lambda I2, a, k: _only_mol(a, k, matches)) if n == 'GetQueryMatches' else NotImplementedVal}
     o = Obj(cls, {'other_descriptors': [{'name': 'Cis', 'connectivity': q}], 'smiles_based_descriptors': [], 'smarts_based_descriptors': [],
                   'remaps': {}}, 'param')
     mol = Obj(BuiltinClass('AnyMol'), {}, 'param')
@@ -308,6 +313,12 @@ def u_assign_descriptor(I):
                 ('no other descriptor appears', z3.BoolVal(set(r) <= {'Cis'}))]
     check_outcome(I, out, raises={}, returns=posts)
     return {'inputs': {'atoms': atoms}}
+
+
+def _only_mol(a, k, result):
+    if len(a) != 1 or k:
+        raise Unsupported('GetQueryMatches called with arguments the matcher contract does not cover: %r %r' % (a[1:], sorted(k)))
+    return result
 
 
 def FRAME_REMAPS(o, before):
@@ -335,7 +346,7 @@ def u_assign_descriptor_multi(I):
         return tuple((100 * e + i,) for i in range(counts[e]))
     q = [Obj(BuiltinClass('DescQuery%d' % e), {}, 'param') for e in range(2)]
     for e in range(2):
-        W_.abstract['DescQuery%d' % e] = {'attr': (lambda e_: lambda I_, o, n: Builtin('GetQueryMatches', lambda I2, a, k: (calls.append(('ring', e_, a[0])), matches_of(e_))[1])
+        W_.abstract['DescQuery%d' % e] = {'attr': (lambda e_: lambda I_, o, n: Builtin('GetQueryMatches', lambda I2, a, k: (calls.append(('ring', e_, a[0])), _only_mol(a, k, matches_of(e_)))[1])
                                                    if n == 'GetQueryMatches' else NotImplementedVal)(e)}
     patt = {2: Obj(BuiltinClass('Patt'), {'e': 2}, 'param'), 3: Obj(BuiltinClass('Patt'), {'e': 3}, 'param')}
     W_.abstract['Patt'] = {}
